@@ -571,3 +571,114 @@ Proof.
     [intros x []|simpl; lia|simpl; lia|exact Hn|exact H|].
   rewrite <- H3. apply nform_plain; assumption.
 Qed.
+
+(* ================================================================ preference addition (Bucklin, Oklahoma) *)
+(* the candidates named on the ballots the rounds run over *)
+Definition pa_cands (votes : list (ranked * Q)) : list C := flat_map (fun bw => flatten (fst bw)) votes.
+
+(* what the round loop can return: a full normal form, or fewer than n distinct plain winners and no tie *)
+Definition pa_result_ok (cands : list C) (n : nat) (r : list (res C)) : Prop :=
+  nform cands n r \/ exists el, r = map Cand el /\ NoDup el /\ incl el cands /\ length el < n.
+
+Lemma elected_mem_plain c (el : list C) : elected_mem c (map Cand el) = true <-> In c el.
+Proof.
+  unfold elected_mem. induction el as [|a el IH]; simpl; [split; [discriminate|tauto]|].
+  rewrite orb_true_iff, IH. unfold ceqb. rewrite Pos.eqb_eq. split; intros [H|H]; auto.
+Qed.
+
+(* the running totals: distinct candidates of the ballots, nobody already elected *)
+Definition pa_tot_ok (cands el : list C) (T : list (C * Q)) : Prop :=
+  NoDup (map fst T) /\ forall x, In x (map fst T) -> In x cands /\ ~ In x el.
+
+Lemma add_cand_ok cands el y T c : In c cands -> pa_tot_ok cands el T -> pa_tot_ok cands el (add_cand (map Cand el) y T c).
+Proof.
+  intros Hc [Hn Hk]. unfold add_cand. destruct (elected_mem c (map Cand el)) eqn:E; [split; assumption|].
+  unfold tadd. split; [apply dset_nodup, Hn|]. intros x Hx. apply dset_keys_iff in Hx. destruct Hx as [->|Hx]; [|apply Hk, Hx].
+  split; [exact Hc|]. intros Hin. apply elected_mem_plain in Hin. congruence.
+Qed.
+
+Lemma add_members_ok cands el y (l : list C) : (forall c, In c l -> In c cands) -> forall T,
+  pa_tot_ok cands el T -> pa_tot_ok cands el (fold_left (add_cand (map Cand el) y) l T).
+Proof.
+  induction l as [|c l IH]; intros Hl T HT; simpl; [exact HT|].
+  apply IH; [intros x Hx; apply Hl; right; exact Hx|]. apply add_cand_ok; [apply Hl; left; reflexivity|exact HT].
+Qed.
+
+Lemma add_round_ok coef votes r el : forall T, pa_tot_ok (pa_cands votes) el T ->
+  pa_tot_ok (pa_cands votes) el (add_round coef votes r (map Cand el) T).
+Proof.
+  unfold add_round.
+  assert (H : forall vs, incl vs votes -> forall T, pa_tot_ok (pa_cands votes) el T ->
+            pa_tot_ok (pa_cands votes) el (fold_left (add_ballot (coef r) r (map Cand el)) vs T)).
+  { induction vs as [|bw vs IH]; intros Hi T HT; simpl; [exact HT|].
+    apply IH; [intros x Hx; apply Hi; right; exact Hx|].
+    unfold add_ballot. destruct (nth_error (fst bw) r) as [it|] eqn:En; [|exact HT].
+    apply add_members_ok; [|exact HT]. intros c Hc. unfold pa_cands. apply in_flat_map. exists bw.
+    split; [apply Hi; left; reflexivity|]. unfold flatten. apply in_flat_map. exists it. split; [eapply nth_error_In, En|exact Hc]. }
+  apply H. intros x Hx. exact Hx.
+Qed.
+
+Lemma majority_keys_in q (T : list (C * Q)) x : In x (map fst (majority_of q T)) -> In x (map fst T).
+Proof.
+  intros H. apply in_map_iff in H. destruct H as ([c v] & <- & Hin). apply majority_in in Hin. apply in_map_iff. exists (c, v). tauto.
+Qed.
+
+Lemma pa_loop_shape coef votes quota n : forall rounds T el,
+  NoDup el -> incl el (pa_cands votes) -> length el < n -> pa_tot_ok (pa_cands votes) el T ->
+  pa_result_ok (pa_cands votes) n (pa_loop coef votes quota n rounds T (map Cand el)).
+Proof.
+  set (cands := pa_cands votes).
+  induction rounds as [|r0 rest IH]; intros T el He Hi Hlt HT; cbn [pa_loop]; cbv zeta.
+  - right. exists el. repeat split; assumption.
+  - pose proof (add_round_ok coef votes r0 el T HT) as [N1 K1]. fold cands in K1.
+    set (T1 := add_round coef votes r0 (map Cand el) T) in *.
+    pose proof (majority_nodup quota T1 N1) as NM.
+    set (M := majority_of quota T1) in *.
+    assert (KM : forall x, In x (map fst M) -> In x cands /\ ~ In x el) by (intros x Hx; apply K1, (majority_keys_in quota), Hx).
+    rewrite map_length. set (m := n - length el).
+    destruct (le_lt_dec m (length M)) as [Hge|Hsm].
+    + assert (Hb : nform (map fst M) m (get_n_best Qle_bool M m)) by (apply (gnb_nform Qle_bool Qle_bool_total Qle_bool_trans); [lia|exact NM]).
+      assert (Hfull : nform cands n (map Cand el ++ get_n_best Qle_bool M m)).
+      { replace n with (length el + m) by lia. apply (nform_prefix cands (map fst M)); [exact He|exact Hi| | |exact Hb].
+        - intros x Hx. apply KM, Hx.
+        - intros x Hx Hx'. exact (proj2 (KM x Hx') Hx). }
+      rewrite (nform_length _ _ _ Hfull), Nat.eqb_refl. left. exact Hfull.
+    + destruct (gnb_all Qle_bool Qle_bool_total Qle_bool_trans M m ltac:(lia) ltac:(lia)) as (s & Hp & Hbest). rewrite Hbest.
+      assert (Hps : Permutation (map fst s) (map fst M)) by (apply Permutation_map, Hp).
+      rewrite <- map_app. rewrite map_length, app_length, map_length, (Permutation_length Hp).
+      assert (Nat.eqb (length el + length M) n = false) as -> by (apply Nat.eqb_neq; lia).
+      apply IH.
+      * apply Threshold_proofs.nodup_app_intro; [exact He|eapply Permutation_NoDup; [apply Permutation_sym, Hps|exact NM]|].
+        intros x Hx Hx'. apply (Permutation_in _ Hps) in Hx'. exact (proj2 (KM x Hx') Hx).
+      * intros x Hx. apply in_app_or in Hx. destruct Hx as [Hx|Hx]; [apply Hi, Hx|]. apply (Permutation_in _ Hps) in Hx. apply KM, Hx.
+      * rewrite app_length, map_length, (Permutation_length Hp). lia.
+      * unfold drop_best. split.
+        -- rewrite (filter_keys_eq (fun c => negb (elected_mem c (map Cand (map fst s))))). apply NoDup_filter, N1.
+        -- intros x Hx. rewrite (filter_keys_eq (fun c => negb (elected_mem c (map Cand (map fst s))))) in Hx.
+           apply filter_In in Hx. destruct Hx as [Hx Hm]. destruct (K1 x Hx) as [Hc Hne]. split; [exact Hc|].
+           intros Hin. apply in_app_or in Hin. destruct Hin as [Hin|Hin]; [exact (Hne Hin)|].
+           apply negb_true_iff in Hm. apply elected_mem_plain in Hin. congruence.
+Qed.
+
+Theorem pa_core_shape coef votes n : 1 <= n -> pa_result_ok (pa_cands votes) n (pa_core coef votes n).
+Proof.
+  intros Hn. unfold pa_core. apply (pa_loop_shape coef votes _ n _ [] []); [constructor|intros x []|simpl; lia|].
+  split; [constructor|intros x []].
+Qed.
+
+(* in terms of the declarative shape: exactly n well-shaped entries, or fewer than n distinct plain winners *)
+Lemma pa_result_ok_shape cands n r : pa_result_ok cands n r ->
+  (length r <= n)%nat /\ sel_shape cands (length r) r /\ (length r < n -> ties_of r = []).
+Proof.
+  intros [H|(el & -> & He & Hi & Hl)].
+  - pose proof (nform_length _ _ _ H) as Hlen. rewrite Hlen. split; [lia|]. split; [apply nform_shape, H|lia].
+  - rewrite map_length. split; [lia|]. split; [apply nform_shape, nform_plain; assumption|]. intros _. apply ties_of_cands.
+Qed.
+
+Theorem pa_eval_shape fx coef split votes n r : pa_eval fx coef split votes n = PA_ok r ->
+  pa_result_ok (pa_cands (prep fx split votes)) n r.
+Proof.
+  unfold pa_eval. destruct n as [|n0]; [discriminate|]. fold (prep fx split votes).
+  destruct (prep fx split votes) as [|bw vs] eqn:Ep; [discriminate|]. rewrite <- Ep.
+  unfold reconcile. destruct (existsb _ _); [discriminate|]. intros [= <-]. apply pa_core_shape. lia.
+Qed.
